@@ -566,14 +566,14 @@ def classify_pmap(case):
 
 
 SUBCHECKS = [
-    Subcheck("sort", sort_inputs, check_sort, classify_sort, quick=1500, thorough=60000, journal=False),
-    Subcheck("sort_kv", kv_inputs, check_sort_kv, classify_sort_kv, quick=1000, thorough=40000, journal=False),
-    Subcheck("isplit", isplit_cases, check_isplit, classify_isplit, quick=600, thorough=30000, journal=False,
+    Subcheck("sort", sort_inputs, check_sort, classify_sort, quick=3000, thorough=60000, journal=False),
+    Subcheck("sort_kv", kv_inputs, check_sort_kv, classify_sort_kv, quick=2000, thorough=40000, journal=False),
+    Subcheck("isplit", isplit_cases, check_isplit, classify_isplit, quick=1200, thorough=30000, journal=False,
              exhaustive=isplit_exhaustive, exhaustive_tiers=("quick", "thorough")),
-    Subcheck("splitarray", splitarray_cases, check_splitarray, classify_splitarray, quick=1000, thorough=40000,
+    Subcheck("splitarray", splitarray_cases, check_splitarray, classify_splitarray, quick=2000, thorough=40000,
              journal=False),
-    Subcheck("progress", progress_cases, check_progress, classify_progress, quick=1500, thorough=60000, journal=False),
-    Subcheck("prange", prange_cases, check_prange, classify_prange, quick=400, thorough=15000, journal=False),
-    Subcheck("pmap", pmap_cases, check_pmap, classify_pmap, quick=160, thorough=4000, journal=False,
+    Subcheck("progress", progress_cases, check_progress, classify_progress, quick=3000, thorough=60000, journal=False),
+    Subcheck("prange", prange_cases, check_prange, classify_prange, quick=800, thorough=15000, journal=False),
+    Subcheck("pmap", pmap_cases, check_pmap, classify_pmap, quick=320, thorough=4000, journal=False,
              max_shrink_s=60.0),
 ]
